@@ -23,6 +23,7 @@ def rule_a(ctx):
     f = m.func(MOD, "FVDivergence.__init__")
     g = f.params[1]
     am = AM(f)
+    am.syn = [{"np.concatenate", "np.hstack"}]   # the pieces are 1-d
     ctx.instance(R)
     # the value stored in self.mat, with every once-bound local replaced by its definition
     sts = [s_ for s_ in ast.walk(f.node) if isinstance(s_, ast.Assign) and any(norm(t) == "self.mat" for t in s_.targets)]
@@ -209,7 +210,8 @@ def rule_e(ctx):
     nf = r.params[1]
     loops = [l for l in r.node.body if isinstance(l, ast.For)]
     ok = False
-    if len(loops) == 1 and am2.has(r.node, "dim = self.grid.dim") is not None and am2.has(r.node, f"tangential_fluxes = self.tangential_reconstruction({nf}, False)") is not None \
+    am2.let("dim", "self.grid.dim")
+    if len(loops) == 1 and am2.has(r.node, f"tangential_fluxes = self.tangential_reconstruction({nf}, False)") is not None \
             and am2.has(r.node, "full_flux = np.zeros((self.grid.num_faces, dim), dtype=float)") is not None:
         outer = loops[0]
         ok = am2.eq(outer.iter, "range(dim)") and am2.eq(outer.target, "d") and am2.eq_block(outer.body, [
